@@ -27,9 +27,73 @@ func c18IsClean(e ast.Expr) bool {
 	return ok && exprText(c.Fun) == "filepath.Clean"
 }
 
-func c18PrefixTest(fd *ast.FuncDecl, where string) (a, b bool, negated bool, node ast.Node) {
+// c18Containment describes how a function decides that a path is inside a
+// base. Two mechanisms are known:
+//
+//	"string-prefix"  one strings.HasPrefix(a, b) on the paths themselves;
+//	                 flags = (a is filepath.Clean(..), b is filepath.Clean(..), test is negated)
+//	"rel"            filepath.Rel(base, p) (directly, or through the helper isWithin of
+//	                 the same file) whose result is compared with literals;
+//	                 flags = (compared with ".", compared with "..", HasPrefix(rel, ".."+sep))
+//
+// Names of locals are deliberately not part of the shape. Anything else is a
+// broken tie.
+func c18Containment(rel, recv, name string) (mech string, f1, f2, f3 bool, node ast.Node) {
+	fd := findFunc(rel, recv, name)
 	if fd == nil {
-		return false, false, false, nil
+		return "", false, false, false, nil
+	}
+	body := ast.Node(fd)
+	// through the helper?
+	viaHelper := false
+	ast.Inspect(fd, func(y ast.Node) bool {
+		if c, ok := y.(*ast.CallExpr); ok && exprText(c.Fun) == "isWithin" && len(c.Args) == 2 {
+			viaHelper = true
+			node = c
+		}
+		return true
+	})
+	if viaHelper {
+		h := findFunc(rel, "", "isWithin")
+		if h == nil {
+			return "", false, false, false, nil
+		}
+		body = h
+	}
+	var relCall *ast.CallExpr
+	ast.Inspect(body, func(y ast.Node) bool {
+		if c, ok := y.(*ast.CallExpr); ok && exprText(c.Fun) == "filepath.Rel" && len(c.Args) == 2 {
+			relCall = c
+		}
+		return true
+	})
+	if relCall != nil {
+		if node == nil {
+			node = relCall
+		}
+		ast.Inspect(body, func(y ast.Node) bool {
+			switch x := y.(type) {
+			case *ast.BinaryExpr:
+				if x.Op == token.EQL || x.Op == token.NEQ {
+					for _, side := range []ast.Expr{x.X, x.Y} {
+						if s, ok := strLit(side); ok {
+							if s == "." {
+								f1 = true
+							}
+							if s == ".." {
+								f2 = true
+							}
+						}
+					}
+				}
+			case *ast.CallExpr:
+				if exprText(x.Fun) == "strings.HasPrefix" && len(x.Args) == 2 && strings.HasPrefix(exprText(x.Args[1]), `".."`) {
+					f3 = true
+				}
+			}
+			return true
+		})
+		return "rel", f1, f2, f3, node
 	}
 	negOperand := map[ast.Node]bool{}
 	ast.Inspect(fd, func(y ast.Node) bool {
@@ -42,14 +106,15 @@ func c18PrefixTest(fd *ast.FuncDecl, where string) (a, b bool, negated bool, nod
 	ast.Inspect(fd, func(y ast.Node) bool {
 		if c, ok := y.(*ast.CallExpr); ok && exprText(c.Fun) == "strings.HasPrefix" && len(c.Args) == 2 {
 			n++
-			a, b, negated, node = c18IsClean(c.Args[0]), c18IsClean(c.Args[1]), negOperand[c], c
+			f1, f2, f3, node = c18IsClean(c.Args[0]), c18IsClean(c.Args[1]), negOperand[c], c
 		}
 		return true
 	})
 	if n != 1 {
-		fail("%s: expected exactly one strings.HasPrefix test, found %d", where, n)
+		fail("%s:%s: no containment test found (neither filepath.Rel nor exactly one strings.HasPrefix; %d HasPrefix calls)", rel, name, n)
+		return "", false, false, false, nil
 	}
-	return
+	return "string-prefix", f1, f2, f3, node
 }
 
 func genC18() {
@@ -158,10 +223,9 @@ func genC18() {
 	g.def("etag_index_dir", "string", coqStr(subdir), "sub-directory that holds cached indexes")
 
 	shape := func(coq, rel, recv, name string) {
-		f := findFunc(rel, recv, name)
-		a, b, neg, node := c18PrefixTest(f, rel+":"+name)
-		g.def(coq, "bool * bool * bool", fmt.Sprintf("(%v, %v, %v)", a, b, neg),
-			"strings.HasPrefix(a, b) in "+name+" at "+g.pos(node)+": (a is filepath.Clean(..), b is filepath.Clean(..), the test is negated)")
+		mech, a, b, c, node := c18Containment(rel, recv, name)
+		g.def(coq, "string * (bool * bool * bool)", fmt.Sprintf("(%s, (%v, %v, %v))", coqStr(mech), a, b, c),
+			"containment test of "+name+" at "+g.pos(node)+`: "string-prefix" (a cleaned, b cleaned, negated) or "rel" (compared with ".", with "..", HasPrefix(rel,"../"))`)
 	}
 	shape("check_cache_file_from_etag", cacheGo, "", "cacheFileFromEtag")
 	shape("check_cache_path_from_url", cacheGo, "", "cachePathFromURL")
